@@ -59,7 +59,7 @@ fn stable(p: &asp::Program, i: &Atoms, inputs: &BTreeSet<Pred>, values: &[Val]) 
     true
 }
 
-pub struct Case { pub left: Option<&'static str>, pub program: &'static str, pub spec: Option<&'static str>, pub ug: &'static str }
+pub struct Case { pub left: Option<&'static str>, pub program: &'static str, pub spec: Option<&'static str>, pub ug: &'static str, pub outline: Option<&'static str> }
 
 const UG0: &str = "input: q/0. output: p/0.";
 const UG0S: &str = "input: q/0. input: s/0. output: p/0. assumption: q or s.";
@@ -107,15 +107,32 @@ pub fn cases(deep: bool) -> Vec<(Case, Vec<&'static [&'static str]>)> {
         let n = group.len();
         for i in 0..n {
             let js: Vec<usize> = if deep { (0..n).collect() } else { vec![(i + 1) % n, (i + 4) % n, (i + 9) % n] };
-            for j in js { k += 1; out.push((Case { left: Some(group[i]), program: group[j], spec: None, ug }, flags_for(k))); }
+            for j in js { k += 1; out.push((Case { left: Some(group[i]), program: group[j], spec: None, ug, outline: None }, flags_for(k))); }
         }
     }
-    for (l, r, ug) in SPECIAL_PAIRS { k += 1; out.push((Case { left: Some(l), program: r, spec: None, ug }, if deep { FLAGS.to_vec() } else { vec![FLAGS[0], FLAGS[1], FLAGS[2 + k % 3]] })); }
+    for (l, r, ug) in SPECIAL_PAIRS { k += 1; out.push((Case { left: Some(l), program: r, spec: None, ug, outline: None }, if deep { FLAGS.to_vec() } else { vec![FLAGS[0], FLAGS[1], FLAGS[2 + k % 3]] })); }
     for (specs, progs, ug) in [(S0, P0, UG0), (S1, P1, UG1)] {
         for (si, s) in specs.iter().enumerate() {
             let n = progs.len();
             let js: Vec<usize> = if deep { (0..n).collect() } else { vec![si % n, (si * 3 + 1) % n, (si * 5 + 2) % n] };
-            for j in js { k += 1; out.push((Case { left: None, program: progs[j], spec: Some(s), ug }, flags_for(k))); }
+            for j in js { k += 1; out.push((Case { left: None, program: progs[j], spec: Some(s), ug, outline: None }, flags_for(k))); }
+        }
+    }
+    // proof outlines (C13): lemmas that are true, lemmas that are false, definitions, an inductive lemma
+    const O0: &[&str] = &[
+        "lemma: p -> q.", "lemma(forward): q -> p. lemma(backward): p -> q.", "lemma: p or not p. lemma: q -> q.", "lemma: #false.", "lemma: p. lemma: q -> p.", "lemma(backward): #false.",
+        "lemma: q -> p. lemma: p -> q. lemma: p <-> q.", "lemma(forward): q -> p. lemma: p -> p.", "lemma(forward): p. lemma(backward): not p.",
+    ];
+    const O1: &[&str] = &[
+        "definition: forall X (d(X) <-> p(X) and not q(X)). lemma: forall X (d(X) -> p(X)).", "lemma: forall X (p(X) -> q(X)).", "lemma: forall X (q(X) -> p(X)). lemma: exists X (p(X)).",
+        "inductive-lemma: forall N$i (N$i >= 0 -> (q(N$i) -> p(N$i))).", "definition: forall X (d(X) <-> q(X) and not p(X)). definition: forall X (e(X) <-> d(X) or p(X)). lemma: forall X (e(X) -> q(X)).",
+        // (the extent of a defined predicate must be finite for the enumeration: the bodies are guarded by an atom) "lemma: forall X (p(X) <-> q(X)). lemma: #false.",
+    ];
+    for (outlines, progs, ug) in [(O0, P0, UG0), (O1, P1, UG1)] {
+        for (oi, o) in outlines.iter().enumerate() {
+            let n = progs.len();
+            let ijs: Vec<(usize, usize)> = if deep { (0..n.min(8)).flat_map(|i| (0..n.min(8)).map(move |j| (i, j))).collect() } else { vec![(oi % n, (oi + 1) % n), ((oi * 2 + 3) % n, (oi * 2 + 3) % n), ((oi + 5) % n, oi % n)] };
+            for (i, j) in ijs { k += 1; out.push((Case { left: Some(progs[i]), program: progs[j], spec: None, ug, outline: Some(o) }, flags_for(k))); }
         }
     }
     out
@@ -127,7 +144,7 @@ fn declared_preds(p: &ReadProblem) -> BTreeSet<Pred> { p.preds.iter().cloned().c
 enum Side<'a> { Program(&'a asp::Program), Spec(&'a fol::Specification) }
 
 pub fn check_case(c: &Case, flag_sets: &[&[&str]], st: &mut VStats, fails: &mut Vec<Failure>) {
-    let input_desc = format!("{}{} | program `{}` | user guide `{}`", c.left.map(|l| format!("left `{l}`")).unwrap_or_default(), c.spec.map(|s| format!("spec `{s}`")).unwrap_or_default(), c.program, c.ug);
+    let input_desc = format!("{}{} | program `{}` | user guide `{}`{}", c.left.map(|l| format!("left `{l}`")).unwrap_or_default(), c.spec.map(|s| format!("spec `{s}`")).unwrap_or_default(), c.program, c.ug, c.outline.map(|o| format!(" | outline `{o}`")).unwrap_or_default());
     let bad = |m: &str, fails: &mut Vec<Failure>| fails.push(Failure { property: "harness", input: input_desc.clone(), detail: m.to_string() });
     let prog = match asp::Program::from_str(c.program) { Ok(p) => p, Err(_) => return bad("program does not parse", fails) };
     let left = match c.left { Some(l) => match asp::Program::from_str(l) { Ok(p) => Some(p), Err(_) => return bad("left program does not parse", fails) }, None => None };
@@ -144,6 +161,8 @@ pub fn check_case(c: &Case, flag_sets: &[&[&str]], st: &mut VStats, fails: &mut 
     files.push(("b.lp", c.program));
     if let Some(s) = c.spec { files.push(("s.spec", s)); }
     files.push(("g.ug", c.ug));
+    if let Some(o) = c.outline { files.push(("o.po", o)); }
+    let outline = match c.outline { Some(o) => match fol::Specification::from_str(o) { Ok(s) => Some(s), Err(e) => return bad(&format!("outline does not parse: {e}"), fails) }, None => None };
 
     // the two sides: assumed (left program or specification) and claimed (the program), each with its private predicates
     let priv_of = |p: &asp::Program| -> BTreeSet<Pred> { preds_of(p).difference(&public).cloned().collect() };
@@ -180,7 +199,9 @@ pub fn check_case(c: &Case, flag_sets: &[&[&str]], st: &mut VStats, fails: &mut 
         let mut names: BTreeSet<Pred> = BTreeSet::new();
         for p in &problems { names.extend(declared_preds(p)); }
         // where a private predicate occurs on both sides, one of the two copies has been renamed: the extra declared name
-        let expected: BTreeSet<Pred> = public.union(&priv_left).cloned().collect::<BTreeSet<_>>().union(&priv_prog).cloned().collect();
+        let mut expected: BTreeSet<Pred> = public.union(&priv_left).cloned().collect::<BTreeSet<_>>().union(&priv_prog).cloned().collect();
+        // predicates introduced by the definitions of the proof outline
+        if let Some(o) = &outline { for f in &o.formulas { if f.role == fol::Role::Definition { for q in f.formula.predicates() { expected.insert((q.symbol, q.arity)); } } } }
         let extra: Vec<Pred> = names.difference(&expected).cloned().collect();
         let missing: Vec<Pred> = expected.difference(&names).cloned().collect();
         let mappings: Vec<(HashMap<Pred, Pred>, HashMap<Pred, Pred>)> = {
@@ -211,6 +232,10 @@ pub fn check_case(c: &Case, flag_sets: &[&[&str]], st: &mut VStats, fails: &mut 
         let cl = |i: &Atoms| Ht { here: i.clone(), there: i.clone(), consts: HashMap::new() };
         let ref_fw: Vec<bool> = interps.iter().map(|i| { let m = cl(i); fw.iter().any(|p| refutes(p, &dom, &m)) }).collect();
         let ref_bw: Vec<bool> = interps.iter().map(|i| { let m = cl(i); bw.iter().any(|p| refutes(p, &dom, &m)) }).collect();
+        // refuting the problem of a lemma only shows that the lemma is false: soundness (a) is about the final problems
+        let is_final = |p: &&&ReadProblem| !p.file.contains("outline");
+        let fin_fw: Vec<bool> = interps.iter().map(|i| { let m = cl(i); fw.iter().filter(is_final).any(|p| refutes(p, &dom, &m)) }).collect();
+        let fin_bw: Vec<bool> = interps.iter().map(|i| { let m = cl(i); bw.iter().filter(is_final).any(|p| refutes(p, &dom, &m)) }).collect();
         per_flags.insert(flags.join(" "), (ref_fw.clone(), ref_bw.clone(), interps.clone()));
 
         // assumptions: user guide and specification
@@ -236,7 +261,7 @@ pub fn check_case(c: &Case, flag_sets: &[&[&str]], st: &mut VStats, fails: &mut 
             let left_side = match (&left, &spec) { (Some(l), _) => Side::Program(l), (None, Some(s)) => Side::Spec(s), _ => return bad("neither left program nor specification", fails) };
             let right_side = Side::Program(&prog);
             let mut local: Vec<String> = Vec::new();
-            for (dir_forward, refd, active) in [(true, &ref_fw, want_fw), (false, &ref_bw, want_bw)] {
+            for (dir_forward, refd, fin, active) in [(true, &ref_fw, &fin_fw, want_fw), (false, &ref_bw, &fin_bw, want_bw)] {
                 if !active { continue; }
                 // assumed side A, claimed side B
                 let (a_side, a_map, a_priv, b_side, b_map, b_priv) = if dir_forward { (&left_side, lmap, &priv_left, &right_side, rmap, &priv_prog) } else { (&right_side, rmap, &priv_prog, &left_side, lmap, &priv_left) };
@@ -248,7 +273,7 @@ pub fn check_case(c: &Case, flag_sets: &[&[&str]], st: &mut VStats, fails: &mut 
                 for (k, i) in interps.iter().enumerate() {
                     let a_view = to_side(i, a_map, a_priv);
                     let is_diff = assumed(i) && models(a_side, &a_view, dir_forward, true) && !producible.contains(&restrict(i, &public));
-                    if refd[k] && !is_diff {
+                    if fin[k] && !is_diff {
                         local.push(format!("{} problem refuted by {{{}}}, which is no difference in external behaviour (assumptions hold: {}, assumed side satisfied: {}, public part producible by the other side: {})",
                             if dir_forward { "forward" } else { "backward" }, show(i), assumed(i), models(a_side, &a_view, dir_forward, true), producible.contains(&restrict(i, &public))));
                         break;
